@@ -33,6 +33,22 @@ def evalStall (ins outs : List String) : Verdict :=
   | _, _ => .bad "stall fields"
 
 def evalC10 (ins outs : List String) : Verdict :=
+  if kv? ins "kind" == some "dataless" then
+    (match kvNat? ins "n", kvNat? ins "head", kvNat? outs "refused", kv? outs "headreq", kv? outs "onereq" with
+     | some n, some head, some refused, some hr, some one =>
+       if hr != s!"eof:{head}" then .prop "c10_no_hang_beyond_timeouts" s!"after {n} requests without data ({refused} of them ended without a reply) a head request got {hr}" else
+       if one != "eof:20" then .prop "c10_no_hang_beyond_timeouts" s!"after {n} requests without data a single-height request got {one}" else
+       if refused != n then .prop "c10_reply_shape" s!"{n - refused} requests without data were answered or left hanging" else .ok "dataless"
+     | _, _, _, _, _ => .bad "dataless fields") else
+  if kv? ins "kind" == some "slowstore" then
+    (match kvNat? ins "amount", kv? outs "end", kvNat? outs "ok", kvNat? outs "nf", kvNat? outs "n" with
+     | some amount, some e, some okN, some nf, some n =>
+       if e == "timeout" then .prop "c10_no_hang_beyond_timeouts" "no end of stream within 4 s" else
+       if e == "reset" || e == "err" then .ok "slowstore-reset" else
+       if nf == 1 && n == 1 then .ok "slowstore-notfound" else
+       if okN == amount && n == amount then .ok "slowstore-full" else
+       .prop "c10_reply_exact" s!"a store slower than the request timeout: the stream ended cleanly after {okN} of {amount} headers ({n} responses, {nf} NOT_FOUND)"
+     | _, _, _, _, _ => .bad "slowstore fields") else
   if kv? ins "kind" == some "stall" then evalStall ins outs else
   match kv? ins "kind", kvNat? ins "tail", kvNat? ins "head", kvNat? ins "origin", kvNat? ins "amount",
         kv? outs "end", kv? outs "reply", kvNat? outs "reads", kvNat? outs "slow" with
